@@ -287,3 +287,334 @@ Proof.
   destruct Hack8 as [Hs | (-> & Ha & Hw)]; [left; exact Hs | right].
   split; [reflexivity|]. split; congruence.
 Qed.
+
+(* ---------------------------------------------------------------------------------------- *)
+(* the payload phase in general: RCV.NXT never moves back, replies are pure ACKs of RCV.NXT   *)
+(* ---------------------------------------------------------------------------------------- *)
+(* a reply of the receive path: nothing, or an empty ACK carrying RCV.NXT (and remote_last_ack records it) *)
+Definition pure_ack_of (s' : socket) (rep : option packet) : Prop :=
+  match rep with
+  | None => True
+  | Some p => r_ack_number (snd p) = Some (tcp_window_start s') /\ r_control (snd p) = CNone /\
+              r_payload (snd p) = [] /\ s_remote_last_ack s' = Some (tcp_window_start s')
+  end.
+
+Lemma ack_reply_payload cx s ip r : r_payload (snd (snd (tcp_ack_reply cx s ip r))) = [].
+Proof. unfold tcp_ack_reply. destruct (tcp_reply ip r) as (ip', reply). reflexivity. Qed.
+
+Lemma payload_mono cx s ip r payload off s' rep tg :
+  rcv_wf s -> 0 <= off ->
+  tcp_process_payload cx s ip r payload off = Ok (s', rep, tg) ->
+  rcv_wf s' /\ rb_len (s_rx_buffer s) <= rb_len (s_rx_buffer s') /\
+  rb_cap (s_rx_buffer s') = rb_cap (s_rx_buffer s) /\
+  s_remote_seq_no s' = s_remote_seq_no s /\ s_state s' = s_state s /\
+  s_rx_fin_received s' = s_rx_fin_received s /\ s_remote_win_shift s' = s_remote_win_shift s /\
+  pure_ack_of s' rep /\
+  (rep = None -> s_remote_last_ack s' = s_remote_last_ack s /\ s_remote_last_win s' = s_remote_last_win s).
+Proof.
+  intros (Hwf & Hlen) Hoff H. unfold tcp_process_payload in H.
+  pose proof (l_len_nonneg payload) as Hl0.
+  destruct (Z.eqb_spec (l_len payload) 0) as [E0|E0].
+  { inversion H; subst. repeat split; auto; try lia. }
+  fold asm_cap in H.
+  destruct (asm_atrf asm_cap (s_assembler s) off (l_len payload)) as (a', res) eqn:Hat.
+  pose proof (step_inv asm_cap (s_assembler s) (AAtrf off (l_len payload)) asm_cap_pos
+                (conj Hwf Hlen) (conj Hoff Hl0)) as Hinv'.
+  cbn [asm_step] in Hinv'. rewrite Hat in Hinv'. cbn [fst] in Hinv'.
+  pose proof (c15_atrf asm_cap (s_assembler s) off (l_len payload) a' res Hwf Hlen asm_cap_pos Hoff Hl0 Hat) as Hs.
+  destruct res as [contig|].
+  2:{ inversion H; subst. repeat split; auto; try lia. }
+  assert (Hc0 : 0 <= contig).
+  { destruct Hs as (u & Hu & _ & Hrf). destruct (c15_remove_front u a' contig Hu Hrf) as (_ & Hc & _). exact Hc. }
+  rproj.
+  pose proof (rb_write_unallocated_len (s_rx_buffer s) off payload) as (W1 & W2).
+  destruct (rb_write_unallocated (s_rx_buffer s) off payload) as (rx1, n). cbn [fst] in W1, W2.
+  destruct (negb (n =? l_len payload)); [discriminate|].
+  apply obind_ok_inv in H. destruct H as (rx2 & He & H).
+  assert (L2 : rb_len rx2 = rb_len (s_rx_buffer s) + (if contig =? 0 then 0 else contig) /\ rb_cap rx2 = rb_cap (s_rx_buffer s)).
+  { destruct (contig =? 0); cbn [negb] in He.
+    - inversion He; subst. lia.
+    - destruct (rb_enqueue_unallocated_len _ _ _ He). lia. }
+  destruct L2 as (L2 & C2).
+  set (s1 := upd_rx_buffer (upd_assembler s a') rx2) in *.
+  match type of H with
+  | (let '(s, tg) := ?X in _) = _ => set (dk := X) in *
+  end.
+  assert (Hdk : frame (fst dk) s1).
+  { unfold dk. repeat match goal with
+    | |- context [match ?x with _ => _ end] => destruct x
+    end; cbn [fst]; frame_solve. }
+  destruct dk as (s2, tg2). cbn [fst] in Hdk. destruct Hdk as (Hv2 & Hst2).
+  pose proof Hv2 as (E1 & E2 & E3 & E4 & E5 & E6 & E7). unfold s1 in E1, E2, E3, E4, E5, E6, E7, Hst2.
+  rproj.
+  assert (Hgrow : rb_len (s_rx_buffer s) <= rb_len rx2) by (destruct (contig =? 0); lia).
+  destruct (negb (asm_is_empty (s_assembler s2)) || negb (asm_is_empty (s_assembler s))).
+  - destruct (tcp_ack_reply cx s2 ip r) as (s3, p) eqn:Har.
+    inversion H; subst s' rep tg; clear H.
+    destruct (ack_reply_rxv _ _ _ _ _ _ Har) as (Ha & Hst3 & Hp1 & Hp2 & Hp3).
+    pose proof (acked_window_start _ _ Ha) as Hws3.
+    pose proof (ack_reply_payload cx s2 ip r) as Hpay. rewrite Har in Hpay. cbn [snd] in Hpay.
+    destruct Ha as (A1 & A2 & A3 & A4 & A5 & A6 & A7).
+    split; [unfold rcv_wf; rewrite A1, E1; exact Hinv'|].
+    rewrite A2, E2. split; [exact Hgrow|]. split; [exact C2|].
+    split; [congruence|]. split; [congruence|]. split; [congruence|]. split; [congruence|].
+    split; [|discriminate].
+    unfold pure_ack_of. rewrite Hws3. repeat split; assumption.
+  - inversion H; subst s' rep tg; clear H.
+    split; [unfold rcv_wf; rewrite E1; exact Hinv'|].
+    rewrite E2. split; [exact Hgrow|]. split; [exact C2|].
+    split; [congruence|]. split; [congruence|]. split; [congruence|]. split; [congruence|].
+    split; [exact I|]. intros _. split; congruence.
+Qed.
+
+(* ---------------------------------------------------------------------------------------- *)
+(* any data/ACK segment of the peer on an ESTABLISHED receiver                               *)
+(* ---------------------------------------------------------------------------------------- *)
+(* the window advertised last is not behind RCV.NXT and at most 2^30 wide (C04: win_ok / misc_ok) *)
+Definition adv_ok (s : socket) : Prop :=
+  exists W, 0 <= W <= p30 /\ tcp_window_end s = seq_norm (tcp_window_start s + W).
+
+(* RCV.NXT as the pair the model keeps it in *)
+Definition rcv_same (s' s : socket) : Prop :=
+  s_rx_buffer s' = s_rx_buffer s /\ s_remote_seq_no s' = s_remote_seq_no s /\
+  s_rx_fin_received s' = s_rx_fin_received s /\ s_assembler s' = s_assembler s /\
+  s_state s' = s_state s.
+
+Lemma rcv_same_of_eq s' s : rxv_eq s' s -> s_state s' = s_state s -> rcv_same s' s.
+Proof. intros (E1 & E2 & E3 & E4 & _) Hst. repeat split; assumption. Qed.
+Lemma rcv_same_of_acked s' s : rxv_acked s' s -> s_state s' = s_state s -> rcv_same s' s.
+Proof. intros (E1 & E2 & E3 & E4 & _) Hst. repeat split; assumption. Qed.
+Lemma rcv_same_trans a b c : rcv_same a b -> rcv_same b c -> rcv_same a c.
+Proof. unfold rcv_same. intuition congruence. Qed.
+Lemma rcv_same_ws s' s : rcv_same s' s -> tcp_window_start s' = tcp_window_start s.
+Proof. unfold tcp_window_start. intros (-> & -> & _). reflexivity. Qed.
+
+Lemma ack_reply_rcv cx s0 ip r s' p :
+  tcp_ack_reply cx s0 ip r = (s', p) -> pure_ack_of s' (Some p) /\ rcv_same s' s0.
+Proof.
+  intros Har. destruct (ack_reply_rxv _ _ _ _ _ _ Har) as (Ha & Hst & Hp1 & Hp2 & Hp3).
+  pose proof (acked_window_start _ _ Ha) as Hws.
+  pose proof (ack_reply_payload cx s0 ip r) as Hpay. rewrite Har in Hpay. cbn [snd] in Hpay.
+  split; [|apply rcv_same_of_acked; assumption].
+  destruct Ha as (A1 & A2 & A3 & A4 & A5 & A6 & A7).
+  unfold pure_ack_of. rewrite Hws. repeat split; assumption.
+Qed.
+
+Lemma challenge_rcv cx s0 ip r s' rep :
+  tcp_challenge_ack_reply cx s0 ip r = (s', rep) ->
+  pure_ack_of s' rep /\ rcv_same s' s0 /\ (rep = None -> s_remote_last_ack s' = s_remote_last_ack s0).
+Proof.
+  unfold tcp_challenge_ack_reply. destruct (cx_now cx <? s_challenge_ack_timer s0).
+  - intros H; inversion H; subst. split; [exact I|]. split; [repeat split|]. reflexivity.
+  - destruct (tcp_ack_reply cx (upd_challenge_ack_timer s0 (cx_now cx + 1000000)) ip r) as (s1, p) eqn:E.
+    intros H; inversion H; subst s' rep; clear H.
+    destruct (ack_reply_rcv _ _ _ _ _ _ E) as (Hp & Hs). split; [exact Hp|].
+    split; [|discriminate]. eapply rcv_same_trans; [exact Hs|]. unfold rcv_same. rproj. repeat split.
+Qed.
+
+(* RECEIVER, GENERAL.  An ESTABLISHED socket processes a segment without SYN/FIN/RST that
+   acknowledges exactly SND.UNA (what the peer of a socket that sends nothing emits), anywhere in the
+   sequence space: RCV.NXT does not move back, the state stays ESTABLISHED, the assembler stays
+   well-formed, and whatever is replied is an empty ACK carrying the (new) RCV.NXT. *)
+Theorem process_rcv_mono cx s ip r s' rep tags :
+  s_state s = Established -> rcv_wf s -> adv_ok s ->
+  l_len (r_payload r) <= p30 -> 0 <= r_seq_number r < 4294967296 ->
+  (r_control r = CNone \/ r_control r = CPsh) ->
+  r_ack_number r = Some (s_local_seq_no s) ->
+  0 <= s_local_seq_no s < 4294967296 -> 0 <= rb_len (s_tx_buffer s) < 2147483648 ->
+  tcp_process cx s ip r = Ok (s', rep, tags) ->
+  rcv_wf s' /\ rb_len (s_rx_buffer s) <= rb_len (s_rx_buffer s') /\
+  rb_cap (s_rx_buffer s') = rb_cap (s_rx_buffer s) /\
+  s_remote_seq_no s' = s_remote_seq_no s /\ s_state s' = Established /\
+  s_rx_fin_received s' = s_rx_fin_received s /\
+  pure_ack_of s' rep /\
+  (rep = None -> s_remote_last_ack s' = s_remote_last_ack s).
+Proof.
+  intros Hst Hrw (W & HW & Hwe) Hlen Hsq Hctl Hack Hu Htx H.
+  unfold tcp_process in H.
+  destruct (negb (tcp_accepts s ip r)); [discriminate|].
+  rewrite (ack_check_una cx s ip r Hst Hctl Hack Hu Htx) in H. cbn [obind] in H.
+  apply obind_ok_inv in H. destruct H as (p2 & H2 & H).
+  set (WS := s_remote_seq_no s + rb_len (s_rx_buffer s)) in *.
+  assert (Ews : tcp_window_start s = seq_norm WS) by (unfold tcp_window_start, WS; apply seq_add_as_norm).
+  assert (Ewe : tcp_window_end s = seq_norm (WS + W)).
+  { rewrite Hwe, Ews. rewrite <- seq_add_as_norm. apply seq_add_norm. }
+  set (d := seq_sdiff (r_seq_number r) (seq_norm WS)).
+  assert (Hd : -2147483648 <= d < 2147483648) by apply seq_sdiff_range.
+  assert (Esq : r_seq_number r = seq_norm (WS + d)).
+  { pose proof (seq_norm_of_sdiff (r_seq_number r) (seq_norm WS) Hsq) as Hx. fold d in Hx.
+    rewrite Hx. rewrite <- seq_add_as_norm. apply seq_add_norm. }
+  assert (Hsynced : match s_state s with Listen | SynSent => False | _ => True end) by (rewrite Hst; exact I).
+  pose proof (process_window_spec cx s ip r WS W d Ews Ewe Esq HW Hlen Hd Hsynced) as P2.
+  cbv zeta in P2. rewrite H2 in P2.
+  destruct p2 as [t2 ((s2, payload), off)|t2 s2r rep2].
+  2:{ (* rejected: unchanged, or an ACK *)
+      inversion H; subst s' rep tags; clear H.
+      assert (Hgoal : forall s1 rp, pure_ack_of s1 rp -> rcv_same s1 s ->
+                (rp = None -> s_remote_last_ack s1 = s_remote_last_ack s) ->
+                rcv_wf s1 /\ rb_len (s_rx_buffer s) <= rb_len (s_rx_buffer s1) /\
+                rb_cap (s_rx_buffer s1) = rb_cap (s_rx_buffer s) /\
+                s_remote_seq_no s1 = s_remote_seq_no s /\ s_state s1 = Established /\
+                s_rx_fin_received s1 = s_rx_fin_received s /\ pure_ack_of s1 rp /\
+                (rp = None -> s_remote_last_ack s1 = s_remote_last_ack s)).
+      { intros s1 rp Hp (R1 & R2 & R3 & R4 & R5) Hn. unfold rcv_wf. rewrite R1, R2, R3, R4, R5, Hst.
+        repeat split; try apply Hrw; try lia; assumption. }
+      destruct P2 as [(-> & ->) | (s0 & Hs0 & Hrep)].
+      - apply Hgoal; [exact I | repeat split | reflexivity].
+      - assert (R0 : rcv_same s0 s /\ s_remote_last_ack s0 = s_remote_last_ack s).
+        { destruct Hs0 as [-> | ->]; [split; [repeat split | reflexivity]|].
+          unfold rcv_same. rproj. repeat split. }
+        destruct R0 as (R0 & L0).
+        destruct Hrep as [(p & Har & ->) | Hch].
+        + destruct (ack_reply_rcv _ _ _ _ _ _ Har) as (Hp & Hs).
+          apply Hgoal; [exact Hp | eapply rcv_same_trans; eassumption | discriminate].
+        + destruct (challenge_rcv _ _ _ _ _ _ Hch) as (Hp & Hs & Hn).
+          apply Hgoal; [exact Hp | eapply rcv_same_trans; eassumption | intros E; rewrite (Hn E); exact L0]. }
+  destruct P2 as (Hin & -> & -> & ->).
+  set (s2 := upd_local_rx_last_seq s (Some (r_seq_number r))) in *.
+  assert (F2 : frame s2 s) by (unfold s2; frame_solve).
+  apply obind_ok_inv in H. destruct H as (((al & aof) & aall) & _ & H).
+  assert (Hq : tcp_process_quash s2 r = CNone).
+  { unfold tcp_process_quash. destruct Hctl as [-> | ->]; reflexivity. }
+  rewrite Hq in H.
+  assert (Hst2 : s_state s2 = Established) by (unfold s2; rproj; exact Hst).
+  unfold tcp_process_transition in H. rewrite Hst2 in H. cbn [obind] in H.
+  apply obind_ok_inv in H. destruct H as ((s4 & wu) & H4 & H).
+  pose proof (update_remote_frame _ _ _ _ _ _ H4) as F4.
+  apply obind_ok_inv in H. destruct H as ((s5 & t5) & H5 & H).
+  pose proof (dup_ack_frame _ _ _ _ _ _ _ H5) as F5.
+  pose proof (tsval_frame s5 r) as F5'.
+  set (q5 := match r_timestamp r with
+             | Some (tsval, _) => upd_last_remote_tsval s5 tsval
+             | None => s5
+             end) in *. clearbody q5.
+  pose proof (timers_frame cx q5 al aall) as F6.
+  destruct (tcp_process_timers cx q5 al aall) as (s6, t6). cbn [fst] in F6.
+  pose proof (zwp_frame cx s6 al) as F7.
+  destruct (tcp_process_zwp cx s6 al) as (s7, t7). cbn [fst] in F7.
+  apply obind_ok_inv in H. destruct H as (((s8 & rep8) & t8) & H8 & H).
+  inversion H; subst s' rep tags; clear H.
+  assert (F : frame s7 s).
+  { eapply frame_trans; [exact F7|]. eapply frame_trans; [exact F6|]. eapply frame_trans; [exact F5'|].
+    eapply frame_trans; [exact F5|]. eapply frame_trans; [exact F4 | exact F2]. }
+  destruct F as ((E1 & E2 & E3 & E4 & E5 & E6 & E7) & Est).
+  assert (Hoff : 0 <= trim_off d) by (unfold trim_off; lia).
+  destruct (payload_mono cx s7 ip r _ _ s8 rep8 t8 (rcv_wf_view _ _ E1 Hrw) Hoff H8)
+    as (Hw8 & L & C & Sq & St & Fi & Sh & Hp8 & Hn8).
+  split; [exact Hw8|]. rewrite E2 in L, C. split; [exact L|]. split; [exact C|].
+  split; [congruence|]. split; [congruence|]. split; [congruence|]. split; [exact Hp8|].
+  intros E. destruct (Hn8 E) as (Ha & _). congruence.
+Qed.
+
+(* a data segment that is NOT acceptable (entirely below RCV.NXT, beyond the window, or the window is
+   closed) is answered at once with an empty ACK carrying RCV.NXT; nothing of the receive state moves *)
+Theorem process_stale_data cx s ip r s' rep tags W d :
+  s_state s = Established ->
+  0 <= W <= p30 -> tcp_window_end s = seq_norm (tcp_window_start s + W) ->
+  r_seq_number r = seq_norm (tcp_window_start s + d) -> -2147483648 <= d < 2147483648 ->
+  0 < l_len (r_payload r) <= p30 ->
+  ~ in_window_Z W d (l_len (r_payload r)) ->
+  (r_control r = CNone \/ r_control r = CPsh) ->
+  r_ack_number r = Some (s_local_seq_no s) ->
+  0 <= s_local_seq_no s < 4294967296 -> 0 <= rb_len (s_tx_buffer s) < 2147483648 ->
+  tcp_process cx s ip r = Ok (s', rep, tags) ->
+  exists p, rep = Some p /\ pure_ack_of s' (Some p) /\ rcv_same s' s.
+Proof.
+  intros Hst HW Hwe Hseq Hd Hlen Hnin Hctl Hack Hu Htx H.
+  unfold tcp_process in H.
+  destruct (negb (tcp_accepts s ip r)); [discriminate|].
+  rewrite (ack_check_una cx s ip r Hst Hctl Hack Hu Htx) in H. cbn [obind] in H.
+  apply obind_ok_inv in H. destruct H as (p2 & H2 & H).
+  unfold tcp_process_window in H2. rewrite Hst in H2.
+  set (WS := s_remote_seq_no s + rb_len (s_rx_buffer s)) in *.
+  assert (Ews : tcp_window_start s = seq_norm WS) by (unfold tcp_window_start, WS; apply seq_add_as_norm).
+  assert (Ewe : tcp_window_end s = seq_norm (WS + W)).
+  { rewrite Hwe, Ews. rewrite <- seq_add_as_norm. apply seq_add_norm. }
+  assert (Esq : r_seq_number r = seq_norm (WS + d)).
+  { rewrite Hseq, Ews. rewrite <- seq_add_as_norm. apply seq_add_norm. }
+  rewrite Ews, Ewe, Esq, seq_add_norm in H2.
+  destruct (tcp_segment_in_window (seq_norm WS) (seq_norm (WS + W)) (seq_norm (WS + d))
+                                  (seq_norm (WS + d + l_len (r_payload r)))) as (inw, tg) eqn:Hinw.
+  destruct inw.
+  { exfalso. apply Hnin. apply (segment_in_window_sound WS W d (l_len (r_payload r))); try lia.
+    rewrite Hinw. reflexivity. }
+  assert (Hnr : control_eqb (r_control r) CRst = false) by (destruct Hctl as [-> | ->]; reflexivity).
+  rewrite Hnr in H2. cbn [tcp_state_eqb] in H2.
+  assert (Hpl : (match r_payload r with [] => false | _ => true end) = true).
+  { destruct (r_payload r); [cbn in Hlen; lia | reflexivity]. }
+  assert (Hc : (match r_control r with CNone | CPsh | CFin => true | _ => false end) = true)
+    by (destruct Hctl as [-> | ->]; reflexivity).
+  rewrite Hpl, Hc in H2. cbn [andb] in H2.
+  destruct (tcp_ack_reply cx s ip r) as (s1, p) eqn:Har.
+  inversion H2; subst p2; clear H2. inversion H; subst s' rep tags; clear H.
+  destruct (ack_reply_rcv _ _ _ _ _ _ Har) as (Hp & Hs).
+  exists p. split; [reflexivity|]. split; assumption.
+Qed.
+
+(* ---------------------------------------------------------------------------------------- *)
+(* dispatch of an ESTABLISHED socket, receive side                                           *)
+(* ---------------------------------------------------------------------------------------- *)
+Lemma ack_to_transmit_view s' s : rxv_eq s' s -> tcp_ack_to_transmit s' = tcp_ack_to_transmit s.
+Proof.
+  intros H. unfold tcp_ack_to_transmit. rewrite (rxv_eq_window_start _ _ H).
+  destruct H as (_ & _ & _ & _ & -> & _). reflexivity.
+Qed.
+
+Lemma delack_expired_view s' s now :
+  s_ack_delay_timer s' = s_ack_delay_timer s -> tcp_delayed_ack_expired s' now = tcp_delayed_ack_expired s now.
+Proof. unfold tcp_delayed_ack_expired. intros ->. reflexivity. Qed.
+
+(* what an ESTABLISHED socket transmits carries ack = RCV.NXT and the current window (C04's
+   dispatch_build_spec); an owed ACK whose delay has expired is transmitted when the device accepts *)
+Theorem dispatch_established cx s ok s' res tags t :
+  s_state s = Established -> s_tuple s = Some t -> tu_local_addr t = cx_addr cx ->
+  tcp_dispatch cx s ok = Ok (s', res, tags) ->
+  (forall p, res = DSent p \/ res = DEmitFailed p ->
+     r_ack_number (snd p) = Some (tcp_window_start s) /\ r_window_len (snd p) = tcp_scaled_window s /\
+     r_control (snd p) <> CSyn) /\
+  (tcp_ack_to_transmit s = true -> tcp_delayed_ack_expired s (cx_now cx) = true -> ok = true ->
+   exists p, res = DSent p).
+Proof.
+  intros Hst Htu Haddr H. unfold tcp_dispatch in H. rewrite Htu, Haddr, Z.eqb_refl in H. cbn [negb] in H.
+  apply obind_ok_inv in H. destruct H as ((s1 & t1) & H1 & H).
+  pose proof (dispatch_timers_frame _ _ _ _ H1) as (V1 & S1).
+  pose proof (dispatch_timers_auxf _ _ _ _ H1) as (_ & T1).
+  apply obind_ok_inv in H. destruct H as (((s2 & go) & t2) & H2 & H).
+  pose proof (dispatch_decide_frame _ _ _ _ _ H2) as (V2 & S2).
+  assert (Hs2 : s_state s2 = Established \/ s_state s2 = Closed).
+  { destruct S2 as [S2|S2]; [|right; exact S2]. destruct S1 as [S1|S1]; [left | right]; congruence. }
+  assert (Hrx : forall repr, repr_rx_ok s2 repr ->
+            r_ack_number repr = Some (tcp_window_start s) /\ r_window_len repr = tcp_scaled_window s /\
+            r_control repr <> CSyn).
+  { intros repr [(Hc & _ & [(_ & E) | (_ & [E|E])]) | (Hc & Ha & Hw & _)].
+    - destruct Hs2 as [X|X]; rewrite X in E; discriminate.
+    - destruct Hs2 as [X|X]; rewrite X in E; discriminate.
+    - destruct Hs2 as [X|X]; rewrite X in E; discriminate.
+    - pose proof (rxv_eq_trans _ _ _ V2 V1) as V.
+      rewrite (rxv_eq_window_start _ _ V) in Ha. rewrite (rxv_eq_scaled_window _ _ V) in Hw. auto. }
+  destruct go; cbn [negb] in H.
+  - apply obind_ok_inv in H. destruct H as (((((s3 & orepr) & zwp) & ka) & t3) & H3 & H).
+    destruct (dispatch_build_spec _ _ _ _ _ _ _ _ H3) as (F3 & Hr3).
+    destruct orepr as [repr|].
+    + destruct (negb ok) eqn:Hok.
+      * inversion H; subst. split.
+        -- intros p [E|E]; inversion E; subst p. cbn [snd with_payload_len]. apply Hrx. exact Hr3.
+        -- intros _ _ ->. discriminate.
+      * destruct (tcp_dispatch_finish cx s3 repr zwp ka) as (s4, t4). inversion H; subst. split.
+        -- intros p [E|E]; inversion E; subst p. cbn [snd with_payload_len]. apply Hrx. exact Hr3.
+        -- intros _ _ _. eexists. reflexivity.
+    + (* nothing built: LISTEN only *)
+      exfalso. unfold tcp_dispatch_build in H3.
+      apply obind_ok_inv in H3. destruct H3 as ((((sb & ob) & zb) & tb) & Hb & H3).
+      destruct ob as [rb|]; [apply obind_ok_inv in H3; destruct H3 as (? & _ & H3); inversion H3|].
+      destruct Hs2 as [X|X]; rewrite X in Hb; [|inversion Hb].
+      apply build_data_spec in Hb; [|reflexivity]. destruct Hb as (_ & repr' & E & _). discriminate.
+  - inversion H; subst. split; [intros p [E|E]; discriminate|].
+    intros Ha He _. exfalso.
+    (* decide saw the owed ACK *)
+    unfold tcp_dispatch_decide in H2.
+    apply obind_ok_inv in H2. destruct H2 as (stt & _ & H2).
+    destruct stt; [inversion H2|].
+    rewrite (ack_to_transmit_view _ _ V1), Ha in H2.
+    rewrite (delack_expired_view s1 s (cx_now cx) T1), He in H2. cbn [andb] in H2. inversion H2.
+Qed.
